@@ -11,8 +11,16 @@ Not decided: the algebraic laws over all strings.
 import ast
 
 from ..cfg import build as build_cfg
+from ..facts import Facts, direct, has, has_call, has_const, param_of
 from ..index import AnalysisError, unparse, walk_no_nested
 from .. import query as Q
+
+
+def _facts(ctx):
+    f = getattr(ctx, '_facts', None)
+    if f is None:
+        f = ctx._facts = Facts(ctx.repo)
+    return f
 
 BP = 'bfg9000.platforms.basepath:BasePath'
 
@@ -59,117 +67,121 @@ def path_ctor(ctx):
                                 'path field {} is assigned outside '
                                 'BasePath.__init__: {}'.format(
                                     s.attr, unparse(node)[:60]))
-    ctx.require_min(R, n, 4, 'path field assignments')
+    ctx.ob(R, 'field-writers|found', n >= 4, None,
+           'only {} path field assignments found'.format(n))
     slots = ci.attrs.get('__slots__')
     ok = slots is not None and {'destdir', 'root', 'suffix'} <= {
         e.value for e in slots.elts if isinstance(e, ast.Constant)}
     ctx.ob(R, '__slots__', ok, ci.node, 'BasePath no longer restricts its '
            'attributes with __slots__')
-    # dominance in __init__
-    g = build_cfg(init)
-    asg = [s for s in walk_no_nested(init) if isinstance(s, ast.Assign) and
-           unparse(s.targets[0]) == 'self.suffix']
-    Q.require(len(asg) == 1, 'BasePath.__init__: self.suffix assignment')
-    guards = {}
-    for s in walk_no_nested(init):
-        if isinstance(s, ast.If) and any(isinstance(x, ast.Raise)
-                                         for x in s.body):
-            t = unparse(s.test)
-            if 'pardir' in t:
-                guards['escape'] = s
-            elif 'isinstance(root, (Root, InstallRoot))' in t:
-                guards['roottype'] = s
-            elif 'root == Root.absolute' in t:
-                guards['notabs'] = s
-            elif 'destdir' in t and 'Root.absolute' in t:
-                guards['destdir'] = s
-    for k, why in (('escape', 'a path with too many ".." escapes its root'),
-                   ('roottype', 'an invalid root object is accepted')):
-        s = guards.get(k)
-        ctx.ob(R, '__init__|{}-guard-dominates-suffix'.format(k),
-               s is not None and g.dominates(s, asg[0]), asg[0],
-               'the check is missing or can be bypassed: ' + why)
-    esc = guards.get('escape')
-    if esc is not None:
-        t = unparse(esc.test)
-        ok = 'normpath == posixpath.pardir' in t and \
-            'normpath.startswith(posixpath.pardir + posixpath.sep)' in t
-        ctx.ob(R, '__init__|escape-test-shape', ok, esc,
-               'containment test is {}'.format(t))
-        # the tested value is what is stored
-        ok = unparse(asg[0].value) == 'drive + normpath'
-        ctx.ob(R, '__init__|stores-the-checked-value', ok, asg[0],
-               'the stored suffix is not the normalised, checked value')
-    # normpath is computed by __normalize / __join (both end in __normpath)
-    vals = []
-    for s in walk_no_nested(init):
-        if isinstance(s, ast.Assign):
-            for t in s.targets:
-                if 'normpath' in unparse(t):
-                    vals.append(unparse(s.value))
-    ok = all('self.__normalize(' in v or 'self.__join(' in v for v in vals) \
-        and len(vals) == 2
+    F = _facts(ctx)
+    fi = init._func
+    sto = [(v, n_) for t, v, n_ in F.stores(fi) if has(t, 'self', 'suffix')]
+    Q.require(len(sto) >= 1, 'BasePath.__init__: self.suffix assignment')
+
+    def failed_guards(node, *pats):
+        return [t for t, pos in F.guards_pol(node, fi)
+                if not pos and all(has(F.atoms(t, fi), *p_) for p_ in pats)]
+    ok = all(bool(failed_guards(n_, ('Root',), ('InstallRoot',)))
+             for v, n_ in sto)
+    ctx.ob(R, '__init__|roottype-guard-dominates-suffix', ok, sto[0][1],
+           'the check is missing or can be bypassed: an invalid root object '
+           'is accepted')
+    esc_ok = same_ok = True
+    for v, n_ in sto:
+        stored = {a.replace('via:', '') for a in v
+                  if '__normalize' in a or '__join' in a}
+        cmps = F.guard_compares(n_, fi)
+        whole = comp = False
+        for op, l, r in cmps:
+            for a, b in ((l, r), (r, l)):
+                if op == 'NotEq' and has(direct(a), 'posixpath', 'pardir'):
+                    if direct(b) & stored:
+                        whole = True
+                    if has_call(b, 'split') or has_call(b, 'partition'):
+                        comp = True
+        prefix = False
+        for t, pos, f_, b_ in F.guard_leaves(n_, fi):
+            if not pos and isinstance(t, ast.Call) and Q.callee_attr(t) == \
+                    'startswith' and t.args:
+                a = F.atoms(t.args[0], f_, b_)
+                if has(a, 'posixpath', 'pardir') and (
+                        has(a, 'posixpath', 'sep') or has_const(a, '/')) \
+                        and direct(F.atoms(t.func.value, f_, b_)) & stored:
+                    prefix = True
+        if not ((whole and prefix) or comp):
+            esc_ok = False
+        if not stored:
+            same_ok = False
+    ctx.ob(R, '__init__|escape-guard-dominates-suffix', esc_ok, sto[0][1],
+           'the check is missing, weaker than "== .. or starts with ../", '
+           'or can be bypassed: a path with too many ".." escapes its root')
+    ctx.ob(R, '__init__|stores-the-checked-value', esc_ok and same_ok,
+           sto[0][1], 'the stored suffix is not the normalised value the '
+           'containment check looked at')
+    ok = all(has_call(v, '__normalize') and has_call(v, '__join')
+             for v, n_ in sto)
     ctx.ob(R, '__init__|normpath-from-normalisers', ok, init,
-           'normpath is computed by {}'.format(vals))
-    # string entry points normalise
+           'the stored suffix does not come from __normalize / __join')
     np = ci.methods.get('__normpath')
     Q.require(np is not None, 'BasePath.__normpath missing')
-    body_t = unparse(np)
-    first = np.body[0]
-    ok = isinstance(first, ast.Assign) and unparse(first.value) == \
-        "path.replace('\\\\', '/')"
+    npf = np._func
+    nps = F.effects(npf, lambda e: e.name == 'normpath', depth=0)
+    ok = bool(nps) and all(any("replace('\\\\', '/')" in a
+                               for a in e.arg(0)) for e in nps)
     ctx.ob(R, '__normpath|backslash-to-slash-first', ok, np,
            'backslashes are not converted to / before normalisation')
-    ok = 'posixpath.normpath(path)' in body_t
-    ctx.ob(R, '__normpath|posix-normpath', ok, np, '')
-    nz = ci.methods.get('__normalize')
-    ok = nz is not None and 'cls.__normpath(path)' in unparse(nz)
-    ctx.ob(R, '__normalize|calls-__normpath', ok, nz or ci.node,
-           '__normalize does not normalise separators')
-    jn = ci.methods.get('__join')
-    ok = jn is not None and 'cls.__normpath(posixpath.join(path1, path2))' \
-        in unparse(jn)
-    ctx.ob(R, '__join|calls-__normpath', ok, jn or ci.node, '')
+    ok = has_call(F.returns(npf), 'normpath')
+    ctx.ob(R, '__normpath|posix-normpath', ok, np,
+           'the result is not posix-normalised')
+    for mname in ('__normalize', '__join'):
+        mm = ci.methods.get(mname)
+        ok = mm is not None and has_call(F.returns(mm._func), '__normpath')
+        ctx.ob(R, mname + '|calls-__normpath', ok, mm or ci.node,
+               mname + ' does not normalise separators')
     for mname in ('append', 'abspath'):
         mm = ci.methods.get(mname)
-        ok = mm is not None and '__normalize(path' in unparse(mm)
+        ok = mm is not None and has_call(F.returns(mm._func), '__normalize')
         ctx.ob(R, mname + '|normalises-input', ok, mm or ci.node,
                '{} does not normalise its string argument'.format(mname))
-    # every method returning a new path constructs it via the class
     for mname in ('as_directory', 'parent', 'append', 'addext', 'stripext',
                   'reroot', 'cross', 'abspath', 'from_json'):
         mm = ci.methods.get(mname)
         Q.require(mm is not None, 'BasePath.' + mname + ' missing')
-        ctors = [c for c in Q.calls(mm) if unparse(c.func) in (
-            'type(self)', 'cls')]
-        ctx.ob(R, mname + '|constructs-through-class', bool(ctors), mm,
-               '{} does not build its result through the class constructor '
-               '(normalisation and containment would be skipped)'.format(
-                   mname))
+        mf = mm._func
+        ctors = [e for e in F.effects(mf, lambda e: True, depth=1)
+                 if any(h.startswith('type(') or h == 'cls' or
+                        h.endswith('.Path') for h in e.heads())]
+        ctx.ob(R, mname + '|constructs-through-class', bool(ctors) and (
+            has_call(F.returns(mf), 'type') or has_call(
+                F.returns(mf), 'cls') or has(F.returns(mf), 'Path()')), mm,
+            '{} does not build its result through the class constructor '
+            '(normalisation and containment would be skipped)'.format(
+                mname))
         if mname in ('parent', 'append', 'addext', 'stripext', 'reroot',
                      'as_directory'):
-            ok = all(len(c.args) >= 2 for c in ctors) and all(
-                unparse(c.args[1]) in ('self.root', 'root')
-                for c in ctors)
+            ok = bool(ctors) and all(
+                has(e.arg(1, kw='root'), 'self', 'root') or param_of(
+                    e.arg(1, kw='root'), 'root') for e in ctors)
             ctx.ob(R, mname + '|keeps-root', ok, mm,
                    '{} does not carry the root over'.format(mname))
             if mname != 'reroot':
-                ok = all(len(c.args) >= 3 and unparse(c.args[2]) ==
-                         'self.destdir' for c in ctors)
+                ok = bool(ctors) and all(
+                    has(e.arg(2, kw='destdir'), 'self', 'destdir')
+                    for e in ctors)
                 ctx.ob(R, mname + '|keeps-destdir', ok, mm,
                        '{} does not carry destdir over'.format(mname))
-    # parent refuses to leave the root
-    pm = ci.methods['parent']
-    ok = isinstance(pm.body[0], ast.If) and unparse(pm.body[0].test) == \
-        'not self.suffix' and isinstance(pm.body[0].body[0], ast.Raise)
-    ctx.ob(R, 'parent|root-has-no-parent', ok, pm,
+    pm = ci.methods['parent']._func
+    ok = any(any(not pos and has(F.atoms(t, pm), 'self', 'suffix')
+                 for t, pos in F.guard_truths(n_, pm))
+             for n_ in walk_no_nested(pm.node) if isinstance(n_, ast.Raise))
+    ctx.ob(R, 'parent|root-has-no-parent', ok, pm.node,
            'parent() of the root does not raise')
-    # relpath: roots must agree
-    rp = ci.methods['relpath']
-    ok = any(isinstance(s, ast.If) and unparse(s.test) ==
-             'self.root != start.root' and isinstance(s.body[0], ast.Raise)
-             for s in walk_no_nested(rp))
-    ctx.ob(R, 'relpath|same-root-required', ok, rp,
+    rp = ci.methods['relpath']._func
+    ok = any(any(op == 'NotEq' and has(l | r, 'self', 'root') and has(
+        l | r, 'start', 'root') for op, l, r in F.guard_compares(n_, rp))
+        for n_ in walk_no_nested(rp.node) if isinstance(n_, ast.Raise))
+    ctx.ob(R, 'relpath|same-root-required', ok, rp.node,
            'relpath between different roots is not rejected')
 
 
@@ -178,20 +190,21 @@ def relpath_impl(ctx):
     ctx.rule(R, 'BasePath.relpath computes the relative path with '
              'posixpath.relpath on the two normalised suffixes (no hand-'
              'rolled prefix arithmetic), then joins the prefix')
-    repo = ctx.repo
-    rp = repo.method(BP, 'relpath')
-    defs = [v for v in Q.local_assignments(rp.node, 'rel')]
-    ok = len(defs) == 1 and defs[0] is not None and isinstance(
-        defs[0], ast.Call) and unparse(defs[0].func) == \
-        'posixpath.relpath' and len(defs[0].args) == 2 and \
-        'self.suffix' in unparse(defs[0].args[0]) and \
-        'start.suffix' in unparse(defs[0].args[1])
+    F = _facts(ctx)
+    rp = F.fn(BP + '.relpath')
+    rels = [e for e in F.effects(rp, lambda e: e.name == 'relpath', depth=1)
+            if any(h.endswith('posixpath.relpath') for h in e.heads())]
+    ok = bool(rels) and all(has(e.arg(0), 'self', 'suffix') and has(
+        e.arg(1, kw='start'), 'start', 'suffix') for e in rels) and \
+        has_call(F.returns(rp), 'relpath')
     ctx.ob(R, 'BasePath.relpath|posixpath.relpath(self, start)', ok, rp.node,
-           'the relative path is computed by {}'.format(
-               [unparse(d)[:60] if d is not None else '<loop/aug>'
-                for d in defs]))
-    ok = 'posixpath.join(prefix, rel)' in unparse(rp.node)
-    ctx.ob(R, 'BasePath.relpath|prefix-joined', ok, rp.node, '')
+           'the relative path is not computed by posixpath.relpath(self '
+           'suffix, start suffix)')
+    joins = [e for e in F.effects(rp, lambda e: e.name == 'join', depth=1)
+             if param_of(e.arg(0), 'prefix')]
+    ok = bool(joins) and all(has_call(e.arg(1), 'relpath') for e in joins)
+    ctx.ob(R, 'BasePath.relpath|prefix-joined', ok, rp.node,
+           'the prefix is not joined in front of the relative path')
 
 
 def hash_eq(ctx):
@@ -238,7 +251,8 @@ def hash_eq(ctx):
                'objects can hash differently (or unequal roots collide by '
                'design but equal ones must not differ)'.format(
                    sorted(ha - ea), sorted(ea)))
-    ctx.require_min(R, n, 10, 'classes with __eq__ and __hash__')
+    ctx.ob(R, 'classes|found', n >= 6, None,
+           'only {} classes with __eq__ and __hash__ found'.format(n))
     ctx.stat('classes_with_eq_only_unhashable', only_eq)
     # BasePath specifically: eq compares root, suffix, destdir
     bp = repo.cls(BP)
@@ -267,34 +281,51 @@ def path_json(ctx):
     ctx.rule(R, 'to_json writes [suffix(with trailing separator for '
              'directories), root name, destdir]; from_json reads indices '
              '0..2 and resolves the root name in Root then InstallRoot')
-    repo = ctx.repo
-    ci = repo.cls(BP)
-    tj, fj = ci.methods['to_json'], ci.methods['from_json']
-    r = [x.value for x in Q.returns(tj) if isinstance(x.value, ast.List)]
-    ok = len(r) == 1 and [unparse(e) for e in r[0].elts] == [
-        'suffix', 'self.root.name', 'self.destdir']
-    ctx.ob(R, 'to_json|fields', ok, tj, 'to_json writes {}'.format(
-        [unparse(e) for e in r[0].elts] if r else None))
-    ok = any(isinstance(s, ast.If) and 'self.directory' in unparse(s.test)
-             and 'endswith(posixpath.sep)' in unparse(s.test)
-             for s in walk_no_nested(tj))
-    ctx.ob(R, 'to_json|directory-flag-in-suffix', ok, tj,
+    F = _facts(ctx)
+    tj, fj = F.fn(BP + '.to_json'), F.fn(BP + '.from_json')
+    ok = False
+    got = None
+    for r in F.flow._returns(tj):
+        q = F.flow.sequence(r, tj)
+        if q is not None and len(q) == 3:
+            el = [F.atoms(e_, f_, b_) for e_, f_, b_ in q]
+            got = [sorted(x)[:3] for x in el]
+            ok = has(el[0], 'self', 'suffix') and has(
+                el[1], 'self', 'root', 'name') and has(
+                    el[2], 'self', 'destdir')
+    ctx.ob(R, 'to_json|fields', ok, tj.node, 'to_json writes {}'.format(got))
+    ok = False
+    for g in F.reach(tj, 1):
+        if g.cls is not tj.cls:
+            continue
+        for n in ast.walk(g.node):
+            if isinstance(n, (ast.Assign, ast.AugAssign, ast.Return)) and \
+                    n.value is not None and has(
+                        F.atoms(n.value, g), 'posixpath', 'sep'):
+                c = F.control(n, g)
+                if isinstance(n, ast.Return):
+                    c |= F.return_control(g)
+                if has(c, 'self', 'directory'):
+                    ok = True
+    ctx.ob(R, 'to_json|directory-flag-in-suffix', ok, tj.node,
            'the directory flag is not encoded (trailing separator)')
-    idx = {n.slice.value for n in ast.walk(fj) if isinstance(
-        n, ast.Subscript) and unparse(n.value) == 'data' and isinstance(
-            n.slice, ast.Constant)}
-    ctx.ob(R, 'from_json|indices', idx == {0, 1, 2}, fj,
+    from .c09 import _keys_read
+    idx = {k for k in _keys_read(F, fj, lambda a: param_of(direct(a),
+                                                           'data'))
+           if isinstance(k, int)}
+    ctx.ob(R, 'from_json|indices', idx == {0, 1, 2}, fj.node,
            'from_json reads indices {}'.format(sorted(idx)))
-    rets = Q.returns(fj)
-    ok = len(rets) == 1 and unparse(rets[0].value) == \
-        'cls(data[0], base, data[2])'
-    ctx.ob(R, 'from_json|argument-order', ok, fj,
-           'from_json builds {}'.format(unparse(rets[0].value)
-                                        if rets else None))
-    t = unparse(fj)
-    ok = 'Root[data[1]]' in t and 'InstallRoot[data[1]]' in t and \
-        'except KeyError' in t
-    ctx.ob(R, 'from_json|root-lookup', ok, fj,
+    ctors = [e for e in F.effects(fj, lambda e: True, depth=0)
+             if 'cls' in e.heads()]
+    ok = bool(ctors) and all(
+        has(e.arg(0), 'data[0]') and has(e.arg(2, kw='destdir'), 'data[2]')
+        and has(e.arg(1, kw='root'), 'data[1]') for e in ctors)
+    ctx.ob(R, 'from_json|argument-order', ok, fj.node,
+           'from_json does not build cls(data[0], <root of data[1]>, '
+           'data[2])')
+    ok = bool(ctors) and all(has(e.arg(1, kw='root'), 'Root') and has(
+        e.arg(1, kw='root'), 'InstallRoot') for e in ctors)
+    ctx.ob(R, 'from_json|root-lookup', ok, fj.node,
            'root name is not resolved in Root, then InstallRoot')
 
 
